@@ -29,11 +29,26 @@ def gen_history(r, hid, max_lifetimes=3, max_ops=12, panic_prob=0.25):
             ops.insert(pos, k if k == "P" else f"{k}:{r.choice(u)}")
             ops = ops[: pos + 1]
         c = r.random()
+        if c > 0.9: ops = ["RXDENY"] + ops        # the environment refuses execute-without-write protection requests during this lifetime
         if c < 0.12: ops = ["UNWIND"] + ops        # this lifetime runs inside a destructor while the thread unwinds from an earlier panic
         elif c < 0.24: ops = ["THREAD"] + ops      # this lifetime runs on a freshly spawned thread
         lifetimes.append(ops)
     decl = ",".join(ts + FAKES)
     return f"{hid} {decl} " + "|".join(",".join(o) if o else "-" for o in lifetimes), lifetimes
+
+def gen_crowded_history(r, hid, max_lifetimes=2):
+    """lifetimes holding MANY fakes at once (9-24 installations over up to 8 targets, all kinds), so that whatever is per-injector (lists, batches,
+    caches) is exercised beyond small sizes; few calls"""
+    ts = r.sample(U64, r.randint(3, 8)) + r.sample(BOOLS, r.randint(0, 2))
+    lts = []
+    for _ in range(r.randint(1, max_lifetimes)):
+        ops = []
+        for _ in range(r.randint(9, 24)):
+            t = r.choice(ts)
+            ops.append(f"I:{t}:bool:{r.randint(0, 1)}" if t in BOOLS else f"I:{t}:{r.choice(['raw', 'clo', 'fake', 'unc'])}:{r.randint(0, 3)}")
+            if r.random() < 0.1: ops.append(f"C:{r.choice(ts)}")
+        lts.append(ops)
+    return f"{hid} {','.join(ts + FAKES)} " + "|".join(",".join(o) for o in lts), lts
 
 def gen_counted_history(r, hid, max_lifetimes=3):
     """histories mixing plain and counted fakes (met and unmet budgets) on targets drawn WITH repetition;
@@ -77,7 +92,7 @@ def seg_project(evs, what):
 
 def judge(hid, line, lifetimes, h, mline, synth_val, project="full"):
     """-> dict(corr=[...], c02=[...], c03=[...], c12=[...], c17=[...], crashed=bool, nontrivial=tuple)"""
-    lifetimes = [[o for o in ops if o not in ("MAPOVER", "UNWIND", "THREAD")] for ops in lifetimes]      # the environment's action between lifetimes / the context a lifetime runs in: not operations
+    lifetimes = [[o for o in ops if o not in ("MAPOVER", "UNWIND", "THREAD", "RXDENY")] for ops in lifetimes]      # the environment's action between lifetimes / the context a lifetime runs in: not operations
     J = dict(corr=[], corr_c05=[], c01=[], c02=[], c03=[], c11=[], c12=[], c17=[], c05=[], c06=[], crashed=False)
     case = dict(id=hid, history=line)
     recs = h["recs"]
@@ -173,6 +188,14 @@ def judge(hid, line, lifetimes, h, mline, synth_val, project="full"):
                 if t[1] not in live: J["c12"].append(dict(case=case, what="munmap of something the injector did not allocate (or twice)", event=e))
                 elif live[t[1]] != t[2]: J["c12"].append(dict(case=case, what="munmap with a length different from the mapping's", event=e, mapped_len=live[t[1]])); live.pop(t[1])
                 else: live.pop(t[1])
+        # C01 (a call reaches the fake at every moment): within an installation the trampoline is written before the entry is redirected to it
+        if r.tag != "EXIT" and op and op.startswith(("I:", "T:")) and r.res.startswith("installed"):
+            fl = [e.split() for e in r.ev if e.startswith("F ")]
+            tgt = h["addr"].get(op.split(":")[1])
+            ent = [k for k, t in enumerate(fl) if tgt is not None and int(t[1], 16) == tgt]
+            if ent and any(int(t[1], 16) != tgt for t in fl[ent[0] + 1:]):
+                v = dict(case=case, what=f"during the installation {op} (L{r.l} {r.tag}) the entry of the function was redirected BEFORE the trampoline it points to had been written: a call from another thread in between runs whatever the fresh page holds", events=[e for e in r.ev if e.startswith("F ")])
+                J["c01"].append(v)
         # C02 (latest installation in effect AT ALL TIMES): an installation, first or repeated, only writes branches and stubs; code that is
         # neither, flushed during an installation, means the function was taken back to its original code in between
         if r.tag != "EXIT" and op and op.startswith(("I:", "T:")) and r.res.startswith("installed"):
@@ -358,7 +381,8 @@ def check_histories(res, prop_key, n, seed, project, max_lifetimes=3, extra_line
               repeated_target=sum(1 for s in shapes if s[2]),
               lifetimes_run_while_unwinding=sum(1 for _, l in cases for o in l if "UNWIND" in o[:2]),
               lifetimes_run_on_a_spawned_thread=sum(1 for _, l in cases for o in l if "THREAD" in o[:2]),
-              foreign_mapping_over_released_trampoline=sum(1 for _, l in cases for o in l if "MAPOVER" in o[:1]))
+              foreign_mapping_over_released_trampoline=sum(1 for _, l in cases for o in l if "MAPOVER" in o[:1]),
+              lifetimes_under_a_policy_refusing_execute_without_write=sum(1 for _, l in cases for o in l if "RXDENY" in o[:1]))
     old = res.extra.get("history_stats", {})
     res.extra["history_stats"] = {k: v + old.get(k, 0) for k, v in st.items()}
     if corr:
